@@ -20,6 +20,25 @@ PURE_FUNCS = ('os.IsNotExist', 'os.IsExist', 'os.IsPermission', 'io.LimitReader'
               'bufio.NewReaderSize', 'bufio.NewScanner', 'os.Getenv', 'encoding/binary.PutUvarint', 'crypto/md5.New')
 
 
+def split_conj(ast):
+    if isinstance(ast, tuple) and ast and ast[0] == 'bin' and ast[1] == '&&':
+        return split_conj(ast[2]) + split_conj(ast[3])
+    return [ast]
+
+
+def ast_names(ast):
+    out = set()
+    if isinstance(ast, tuple):
+        if ast and ast[0] == 'name' and len(ast) > 1 and isinstance(ast[1], str):
+            out.add(ast[1])
+        for a in ast[1:]:
+            out |= ast_names(a)
+    elif isinstance(ast, list):
+        for a in ast:
+            out |= ast_names(a)
+    return out
+
+
 class CallMixin:
 
     # ------------------------------------------------------------ callee resolution
@@ -83,6 +102,13 @@ class CallMixin:
 
     # ------------------------------------------------------------ the call
     def do_call(self, ctx, ins, st, call, fv, args, want_result=True):
+        if not self.mute:
+            is_forkcall = (isinstance(fv, ClosureV) and self.spec is not None and self.spec.forks
+                           and any(fv.fn.endswith(f.strip()) for f in self.spec.forks))
+            for a in args:
+                # a function literal handed to another function (a callback): may later be called from any task
+                if isinstance(a, ClosureV) and not is_forkcall and a not in self.escaped_closures:
+                    self.escaped_closures.append(a)
         rtype = ins.get('type') if ins['op'] == 'Call' else None
         sig_results = None
         un, sig = self.ty.under(call['sig']) if call.get('sig') else (None, {})
@@ -90,6 +116,19 @@ class CallMixin:
         if isinstance(fv, tuple) and fv and fv[0] == 'invoke':
             _, recv, iface, method = fv
             ps = self.ifacespecs.get((recv, method)) if is_term(recv) else None
+            if ps is None and is_term(recv) and self.spec is not None:
+                # by the expression currently holding the receiver (a local variable, or a field re-read after a havoc)
+                env_ = Env(dict(self.base_names), st, self.entry_state, self.cellnames_for(ctx, ctx.get('block')), self.pkg, prefer_cells=True)
+                for path, ps_ in self.spec.params.items():
+                    if not path.endswith('.' + method):
+                        continue
+                    try:
+                        rv_, rt_ = self.eval(parse_expr(path[:-len(method) - 1]), env_)
+                    except (Unsupported, ParseError):
+                        continue
+                    if is_term(rv_) and rv_ == recv:
+                        ps = ps_
+                        break
             if ps is not None:
                 return self.apply_param_contract(ctx, ins, st, ps, args, res_types)
             if is_term(recv) and recv in self.iface_static:
@@ -120,7 +159,11 @@ class CallMixin:
             want_inline = short in caller_inline or short in top_inline
             if self.spec is not None and self.spec.forks and any(name.endswith(f.strip()) for f in self.spec.forks):
                 # a fork/join combinator (taskgroup.Do): its function-literal arguments run in parallel
-                self.record_fork(ctx, ins, st, [a for a in args if isinstance(a, ClosureV)], False)
+                tasks = [a for a in args if isinstance(a, ClosureV)]
+                for a in args:
+                    if isinstance(a, SliceV):
+                        tasks += [cl for (b_, i_), cl in self.closure_slots.items() if b_ == a.base]
+                self.record_fork(ctx, ins, st, tasks, False)
             # in-context contract of an external callee (an assumption, listed): `call <callee>:` in the caller's contract
             for sp_ in (ctx['spec'], self.spec):
                 if sp_ is not None and getattr(sp_, 'calls', None):
@@ -380,11 +423,22 @@ class CallMixin:
         if pc_:
             env.bound = set(names)
         pos = ins.get('pos', '')
+        fghosts = {g for g, (cid, _) in (extra_cells or {}).items() if isinstance(cid, tuple) and cid and cid[0] == 'fghost'}
         for c in spec.requires:
             try:
-                t = self.eval_bool(c.parse(), env)
-                self.oblige('pre', t, st, '%s: %s' % (label, c.text), pos, clause=None,
-                            slug='%s-%s' % (label, c.slug()), fnname=self.cur_name(ctx))
+                conj = split_conj(c.parse()) if fghosts else [c.parse()]
+                check = [a for a in conj if not (ast_names(a) & fghosts)]
+                init = [a for a in conj if ast_names(a) & fghosts]
+                for a in init:
+                    # a conjunct over the callee's own ghost state is the INITIAL value of that state in this
+                    # invocation (ghost state is per call): set, not demanded (vacuity: cover after the call)
+                    for g in ast_names(a) & fghosts:
+                        st.cells[extra_cells[g][0]] = fresh_like(st.cells[extra_cells[g][0]], 'fg')
+                    self.add_hyp(T.implies(st.pc, self.eval_bool(a, env)))
+                for a in check:
+                    t = self.eval_bool(a, env)
+                    self.oblige('pre', t, st, '%s: %s' % (label, c.text), pos, clause=None,
+                                slug='%s-%s' % (label, c.slug()), fnname=self.cur_name(ctx))
             except Unsupported as e:
                 self.elab_fail('precondition of %s %r: %s' % (label, c.text, e))
         pre = st.copy()
@@ -409,6 +463,15 @@ class CallMixin:
         n2 = dict(allnames)
         n2.update(rn)
         env2 = Env(n2, st, pre, cn, pkg, prefer_cells=pc_)
+        if any('fresh(' in c.text for c in spec.ensures):
+            prev = self.alloc_refs[-1] if self.alloc_refs else self.ALLOC0
+            wm = T.fresh('wm')
+            if not self.mute:
+                self.hyps.append(T.le(prev, wm))
+                if not self.alloc_refs:
+                    self.hyps.append(T.le(T.ZERO, self.ALLOC0))
+                self.alloc_refs.append(wm)
+            env2.fresh_bounds = (prev, wm)
         if pc_:
             env2.bound = set(names) | set(rn)
         for c in spec.ensures:
@@ -599,7 +662,7 @@ class CallMixin:
     def record_fork(self, ctx, ins, st, tasks, multi):
         if self.mute or not tasks:
             return
-        self.fork_groups.append({'tasks': tasks, 'multi': multi, 'state': st.copy(), 'nhyps': len(self.hyps),
+        self.fork_groups.append({'tasks': tasks, 'multi': multi, 'state': st.copy(), 'nhyps': len(self.hyps), 'nescaped': len(self.escaped_closures),
                                  'pos': ins.get('pos', '')})
 
     def in_loop(self, ctx):
@@ -836,6 +899,8 @@ class CallMixin:
                                 done = True
                         except Unsupported:
                             pass
+                    if not done and ast[0] == 'sel' and ast[1][0] == 'name' and ast[1][1] not in names:
+                        done = True        # a local variable: resolved at the call (see do_call)
                     if not done:
                         v, tn = self.eval(ast, env)
                         if is_term(v):
